@@ -15,7 +15,7 @@ ENGINES = [
      "serves_properties": ["C13", "C17"],
      "kind_free_text": "laws ASSUMEd and checked by TLC; recorded calls of compiled and pure implementations validated against the operators"},
     {"name": "E6 outcome", "path": "spec/Outcome.tla + spec/MC_Total.tla + harness/props_c11.py", "serves_properties": ["C11"],
-     "kind_free_text": "liveness / step bound of Sched.tla by TLC; observed pipeline outcomes classified by TLC"},
+     "kind_free_text": "liveness / step bound of Sched.tla by TLC; observed pipeline outcomes classified by TLC; relative cost bound: one statement kind written k and 2k times"},
     {"name": "E7 session", "path": "spec/Session.tla + harness/sessionrun.py + harness/props_c12.py", "serves_properties": ["C12"],
      "kind_free_text": "spec -> code: TLC-enumerated call histories replayed in one interpreter"},
     {"name": "E8 report", "path": "spec/Report.tla + harness/reportrun.py + harness/props_c18.py", "serves_properties": ["C18"],
@@ -33,15 +33,15 @@ TRACE_NOTE = ("trusted: TLC, CPython datetime/zoneinfo, the harness renderer (ab
 CLAIMS = {
     "C01": {"engine": "E1 sched-trace", "design_ref": "DESIGN.md 5/C01",
             "technique": "TLA+ trace validation (TLC) of hook-recorded ledger operations against SchedCore invariant P01; SlotLedger.tla: Apalache inductive invariant for any capacity + TLC-enumerated operation sequences replayed into the real ledger; MC_SubSlot universe traced (thorough)",
-            "text": "TLC evaluates the no-double-booking invariant (portions per slot fit, used <= capacity; on the final ledger the portions of a shared slot fit side by side inside the reported intervals of their tasks) on every observed Book / OffsetMark / Finish state of hundreds (quick) to thousands (thorough) of generated sub-slot / team / ALAP projects and of the repository fixtures",
+            "text": "TLC evaluates the no-double-booking invariant (portions per slot fit, used <= capacity; on the final ledger the portions of a shared slot fit side by side inside the reported intervals of their tasks) on every observed Book / OffsetMark / Finish state of hundreds (quick) to thousands (thorough) of generated sub-slot / team / ALAP projects and of the repository fixtures; slots shared by a forward and a backward task are explored (mixed_subslot) and belong to the class of the open finding KF-C01-mixed-direction, decided by TraceSched.MixedDir",
             "note": TRACE_NOTE},
     "C02": {"engine": "E1 sched-trace", "design_ref": "DESIGN.md 5/C02",
             "technique": "TLA+ trace validation: every booked portion checked against the Calendar operators of SchedCore (zone step functions from zoneinfo); MC_Cal universe (calendars x zones incl. a DST week x leave x vacation, forward and backward) model-checked and every project traced",
-            "text": "every portion a task finally keeps is checked instant by instant (at the calendar step of the project) against OnShiftSec of the spec, for generated calendars with zones, DST, night shifts, leaves, vacations, bookings, ASAP and ALAP",
+            "text": "every portion a task finally keeps is checked instant by instant (at the calendar step of the project) against OnShiftSec of the spec, for generated calendars with zones, DST, night shifts, leaves, vacations, bookings, ASAP and ALAP; leaves inherited from resource groups and from shifts, working hours declared in the project header, projects running over New Year (year_end)",
             "note": TRACE_NOTE + " Projects with calendar edges off the slot grid are the class of the recorded finding KF-C02-misaligned and are skipped by the main exploration."},
     "C03": {"engine": "E1 sched-trace", "design_ref": "DESIGN.md 5/C03",
             "technique": "TLA+ trace validation: exact integer tick accounting of the spec vs the implementation's float accumulation; MC_Alt universe (choice among primaries / alternatives / groups) model-checked and every project traced; MC_SubSlot / MC_Team traced (thorough)",
-            "text": "at every Finish/Done TLC checks ticks booked per member = effort exactly, last booking needed and non-empty, team members same instants, one candidate set",
+            "text": "at every Finish/Done TLC checks ticks booked per member = effort exactly, last booking needed and non-empty, team members same instants, one candidate set; a task with alternatives never changes its candidate after work was booked (forward and backward)",
             "note": TRACE_NOTE},
     "C04": {"engine": "E1 sched-trace", "design_ref": "DESIGN.md 5/C04",
             "technique": "TLA+ trace validation: precedence predicate P04 over own + inherited + precedes edges taken from the generator, both directions",
@@ -49,7 +49,7 @@ CLAIMS = {
             "note": TRACE_NOTE},
     "C05": {"engine": "E1 sched-trace", "design_ref": "DESIGN.md 5/C05",
             "technique": "TLA+ trace validation: booked seconds per calendar day / week from the observed ledger vs declared limits, DayOf/WeekOf integer arithmetic",
-            "text": "booked time per limit owner and period recomputed by the spec from the logged bookings over the whole (extended) horizon and compared with the declared limit",
+            "text": "booked time per limit owner and period recomputed by the spec from the logged bookings over the whole (extended) horizon and compared with the declared limit; year_end profile: weekly counters in the ISO week that straddles New Year",
             "note": TRACE_NOTE},
     "C06": {"engine": "E1 sched-trace", "design_ref": "DESIGN.md 5/C06",
             "technique": "TLA+ trace validation: frame predicate P06 (order, tightness, milestone at bound) at every Done; SlotLedger operation sequences replayed (precise end = slot start + base + kept); MC_SubSlot universe traced (thorough)",
@@ -57,7 +57,7 @@ CLAIMS = {
             "note": TRACE_NOTE},
     "C07": {"engine": "E1 sched-trace", "design_ref": "DESIGN.md 5/C07",
             "technique": "TLA+ reference semantics (SchedCore) executed by TLC step by step against recorded runs; equality of every step and of final dates; MC_Core and MC_Tree universes: every terminal state of Sched.tla replayed into the code",
-            "text": "for core-dialect projects every implementation step (pick order, cursor, offset, booking, release, dates) must equal the step the spec computes and the final dates must agree",
+            "text": "for core-dialect projects every implementation step (pick order, cursor, offset, booking, release, dates) must equal the step the spec computes and the final dates must agree; no complete container may be left unrolled when the next task is picked (PendingC = {})",
             "note": TRACE_NOTE},
     "C08": {"engine": "E1 sched-trace", "design_ref": "DESIGN.md 5/C08",
             "technique": "TLA+ trace validation: no-idle predicates P08F/P08B at Finish, lead-in rule at Book, backward tasks end by the deadline the spec computes",
@@ -102,7 +102,7 @@ CLAIMS.update({
     "C11": {"engine": "E6 outcome", "design_ref": "DESIGN.md 5/C11", "category": "model_checking",
             "technique": "TLC: Sched.tla over a universe with cycles / unreachable bounds / dead resources (Inv11, <>Terminated under WF, step bound); code side: model-driven fault enumeration classified by Outcome.tla + TraceSched C11 flags",
             "text": "spec: every behaviour of Sched terminates within |tasks|*(N+3)+c steps leaving every leaf scheduled in the horizon or unscheduled; code: infeasible grammatical projects and corrupted texts must end as Reject (no schedule event) or Schedule (within a bound proportional to tasks x horizon slots, every leaf scheduled in horizon or warned), never crash / hang",
-            "note": "trusted: TLC, runner alarm (SIGALRM) for hangs; bound is a wall-clock budget 20 s + 50 us x tasks x slots, capped by the tooling at 90 s / 400 s; declared horizons over 10 years are not generated"},
+            "note": "trusted: TLC, runner alarm (SIGALRM) for hangs; bound is a wall-clock budget 20 s + 50 us x tasks x slots, capped by the tooling at 90 s / 400 s; declared horizons over 10 years are not generated; relative bound: 24 statement kinds written k and 2k times, the larger may cost 8 x the smaller"},
     "C12": {"engine": "E7 session", "design_ref": "DESIGN.md 5/C12",
             "technique": "TLC enumerates every API call history of Session.tla; each is replayed in one shared interpreter; observations compared with fresh-process observations by Relate.tla",
             "text": "all histories up to length 4 (5 sampled) over parse / parse-only / repeated schedule / report / CLI path and a rejected text, under 3 hash seeds, with and without extensions, shared and fresh parser objects; SessionMut.cfg shows the model is not vacuous",
@@ -112,15 +112,15 @@ CLAIMS.update({
 CLAIMS.update({
     "C18": {"engine": "E8 report", "design_ref": "DESIGN.md 5/C18",
             "technique": "Report.tla: rows as a function of (schedule, definition), generation with UNCHANGED schedule; observations of the real report code (in-memory JSON/CSV, generated files, schedule after 1..3 generations) decoded into the abstract domain and checked by TLC",
-            "text": "row set and order (leaf filter), Null for unscheduled, JSON = CSV = files, cost = rate x booked time within a cent, schedule unchanged by generation; 6 time formats, random column selections",
+            "text": "row set and order (leaf filter), Null for unscheduled, JSON = CSV = files, cost = rate x booked time within a cent (rates by the generator's reference semantics: own, else the group's, else the global one), schedule unchanged by generation; 6 time formats, random column selections",
             "note": "trusted: TLC, CPython strftime/strptime (string rendering is compared by the harness: rendered_ok), csv/json modules"},
     "C19": {"engine": "E9 cli", "design_ref": "DESIGN.md 5/C19",
             "technique": "Cli.tla state machine model-checked (ExitContract, NoTrace, <>AllDone); every terminal state replayed against the real plan entry point as a subprocess",
-            "text": "all 374 situations input class (missing, directory, empty, blank, syntax, model, not UTF-8, CRLF, partially schedulable, ok) x channel x format x own reports (incl. names that escape the output directory, refused names, sub-directories) x output target (stdout, new file, existing file, --force, missing directory, reader gone); exit status, what stdout is (auto report with SHA-256 report_id / nothing), stderr, leftovers; same rows across channels and own-report variants, same bytes across channels",
+            "text": "all 388 situations input class (missing, directory, empty, blank, syntax, model, not UTF-8, CRLF, partially schedulable, unreadable, file name with a line break / undecodable bytes, ok) and diagnostics channel (stderr writable / on a full device) x channel x format x own reports (incl. names that escape the output directory, refused names, sub-directories) x output target (stdout, new file, existing file, --force, missing directory, reader gone); exit status, what stdout is (auto report with SHA-256 report_id / nothing), stderr, leftovers; same rows across channels and own-report variants, same bytes across channels",
             "note": "trusted: TLC, subprocess / OS; entry point invoked as python -m scriptplan.cli.plan from the scratch copy"},
     "C20": {"engine": "E9 cli", "design_ref": "DESIGN.md 5/C20",
             "technique": "Cli.tla with 3 processes: all interleavings at file-operation granularity (NoTrace, Isolation; shared-name variant must fail); real concurrent rounds compared with solitary runs; strace file-operation logs checked by FsTrace.tla",
-            "text": "N = 8..128 real processes in one cwd and TMPDIR on same / different / failing inputs: byte-identical stdout, equal exit, nothing left; path ownership and creation order from strace logs",
+            "text": "N = 8..128 real processes in one cwd and TMPDIR on same / different / failing inputs: byte-identical stdout, equal exit, nothing left; path ownership and creation order from strace logs; outside faults as actions of the model (Interrupt: Ctrl-C once the run is under way; WriteFail: a temp copy that cannot be written) replayed alone and among other processes",
             "note": "trusted: TLC, strace, the OS scheduler for interleavings of real processes (not controlled); the exhaustive interleaving argument is on the model"},
 })
 
